@@ -17,7 +17,7 @@
    ..._partial are full statements about the handlers (all states) whose step case is not yet part of the trace proof. *)
 From Coq Require Import List NArith ZArith Bool.
 Import ListNotations.
-Require Import Base.Wire Base.PyStr C10.Model C10.Lemmas C10.Handlers C10.SrvLemmas C10.Feed C10.Inv C10.Sim C10.Agree C10.Step.
+Require Import Base.Wire Base.PyStr C10.Model C10.Lemmas C10.Handlers C10.SrvLemmas C10.Feed C10.Inv C10.Sim C10.Agree C10.Step C10.Trace.
 
 (* ---- refutations of the simulation: concrete conformant histories outside [dom] after which the bot model
         disagrees with the server (replayed on the implementation: findings F10, F10b, F10c) ---- *)
@@ -47,17 +47,17 @@ Proof. exact names_item_hostmask. Qed.
 Print Assumptions C10_names_uhnames_hostmask.
 
 (* every other nick keeps its hostmask across a NICK *)
-Theorem C10_nick_others_partial :
+Theorem C10_nick_others :
   forall m b new rest x,
   m_args m = new :: rest -> nonempty (msg_user m) = true -> nonempty (msg_host m) = true -> new <> [] ->
   feq x (msg_nick m) = false -> feq x new = false ->
   idict_get x (b_n2h (st_doNick m b)) = idict_get x (b_n2h b).
 Proof. exact doNick_others. Qed.
-Print Assumptions C10_nick_others_partial.
+Print Assumptions C10_nick_others.
 
 (* membership / op / halfop / voice after NICK, in every channel of every state: [renamed] is the set-level
    meaning of a rename; a case-only rename changes no answer *)
-Theorem C10_nick_membership_partial :
+Theorem C10_nick_membership :
   forall m b new rest ch,
   m_args m = new :: rest -> nonempty (msg_user m) = true -> nonempty (msg_host m) = true -> new <> [] ->
   idict_get ch (b_chans (st_doNick m b)) = option_map (replaceUser (msg_nick m) new) (idict_get ch (b_chans b))
@@ -75,12 +75,12 @@ Proof.
   intros c x. repeat split.
   - apply replaceUser_users. - apply replaceUser_ops. - apply replaceUser_halfops. - apply replaceUser_voices.
 Qed.
-Print Assumptions C10_nick_membership_partial.
+Print Assumptions C10_nick_membership.
 
-Theorem C10_nick_caseonly_membership_partial :
+Theorem C10_nick_caseonly_membership :
   forall o n x s, feq o n = true -> renamed o n x (iset_mem o s) (iset_mem x s) = iset_mem x s.
 Proof. exact renamed_caseonly. Qed.
-Print Assumptions C10_nick_caseonly_membership_partial.
+Print Assumptions C10_nick_caseonly_membership.
 
 (* ChannelState.replaceUser itself (the function IrcState.doNick applies to every channel): a rename that differs
    only in case leaves membership, op, halfop and voice of every nick unchanged, for every channel state.  (Swapping
@@ -95,7 +95,7 @@ Proof. exact replaceUser_caseonly. Qed.
 Print Assumptions C10_nick_caseonly_keeps_membership.
 
 (* PART/KICK/QUIT of a user: removeUser answers every membership question as "not u, and was there before" *)
-Theorem C10_remove_user_partial :
+Theorem C10_remove_user :
   forall u x c,
   iset_mem x (c_users (removeUser u c)) = negb (feq x u) && iset_mem x (c_users c)
   /\ iset_mem x (c_ops (removeUser u c)) = negb (feq x u) && iset_mem x (c_ops c)
@@ -105,7 +105,7 @@ Proof.
   intros u x c. repeat split.
   - apply removeUser_users. - apply removeUser_ops. - apply removeUser_halfops. - apply removeUser_voices.
 Qed.
-Print Assumptions C10_remove_user_partial.
+Print Assumptions C10_remove_user.
 
 (* ---- self-leave, at the level of Irc.feedMsg, every state ---- *)
 Theorem C10_self_leave_part :
@@ -174,13 +174,17 @@ Theorem C10_relation_implies_agree : forall s b, Inv s b -> agree s b = true.
 Proof. exact Inv_agree. Qed.
 Print Assumptions C10_relation_implies_agree.
 
-(* Trace theorem, PARTIAL in the set of actions: for every history, of any length, whose steps are all
-   [proved_step]s -- CONNECT, TOPIC, single-target JOIN of another user into any channel, the bot's own single-target
-   JOIN into a channel nobody is on (full burst: JOIN, NAMES with multi-prefix and with or without userhost-in-names,
-   366, 324, 329, WHO reply) -- the reference server and the bot model, run in lock step from the connected start
-   state, agree after every action.  The step cases of PART, KICK, QUIT, NICK, MODE, CHGHOST, NAMES, WHO, reconnect,
-   multi-target lists and the bot joining a populated channel are NOT proved (see the report); those are covered by
-   the differential run only. *)
+(* Trace theorem, PARTIAL in the set of actions.  For every history, of any length, whose steps are all [proved_step]s the
+   reference server and the bot model, run in lock step from the connected start state, agree after every action.
+   INSIDE (step case proved, Step*.v): CONNECT; TOPIC; KICK with any number of victims (the bot included); QUIT; NICK
+   (real and case-only, other users and the bot itself); MODE with any accepted change list (o h v b k l and the flags
+   n t s m i p, mixed signs; parameters canonical as in [dom]); CHGHOST; WHO refresh; reconnect; PART with any list of channels (other users
+   and the bot); single-target JOIN of another user into any channel; the bot's own single-target JOIN into a channel
+   nobody is on (full burst).
+   STILL OUTSIDE: (1) the bot joining a channel that already has members (needs the 353 item loop, the 324 letter loop, the
+   367 and 352 loops); (2) a NAMES refresh (the same 353 item loop -- it needs the member keys to be canonical nick spellings,
+   which the reference server does not yet guarantee: it stores the actor's spelling); (3) multi-target JOIN lists
+   (AJoin with more than one channel).  These are covered by the differential run only. *)
 Theorem C10_simulation_trace_partial :
   forall nick0 prefix0 u h uh acts,
   valid_nick nick0 = true -> valid_uh u = true -> valid_uh h = true ->
@@ -188,13 +192,13 @@ Theorem C10_simulation_trace_partial :
   all_agree nick0 prefix0 true uh (srv0 nick0 u h) (reset nick0 prefix0) acts = true.
 Proof.
   intros nick0 prefix0 u h uh acts Hn Hu Hh Hr.
-  apply (trace_inv nick0 prefix0 uh acts _ _ (Inv_start nick0 prefix0 u h Hn Hu Hh) Hr).
+  apply (trace_inv nick0 prefix0 uh Hn acts _ _ (Inv_start nick0 prefix0 u h Hn Hu Hh) Hr).
 Qed.
 Print Assumptions C10_simulation_trace_partial.
 
 (* the same from ANY related pair of states (the step case is not tied to the start state) *)
 Theorem C10_simulation_from_related_partial :
-  forall nick0 prefix0 uh acts s b,
+  forall nick0 prefix0 uh acts s b, valid_nick nick0 = true ->
   Inv s b -> run_proved nick0 uh s acts = true -> all_agree nick0 prefix0 true uh s b acts = true.
 Proof. intros. apply trace_inv; assumption. Qed.
 Print Assumptions C10_simulation_from_related_partial.
